@@ -105,7 +105,7 @@ def dispatch(facts, res):
         if facts.find(nm)[0] not in reach_:
             # the handlers this rule knows by name are not what Bus::write calls (the port logic was restructured): the routing
             # cannot be stated in terms of them - not decidable, and the handler analysis keeps the 11-port window as its context
-            res.errors.append("routing: Bus::write does not reach %s: the routing rule is not decidable on this tree" % nm)
+            res.inventory["routing_rule"] = "Bus::write does not reach %s: routing is decided by the composed rule (write:ddr / write:dr) only" % nm
             return {"ddr": None, "dr": None}
         ip.primitives[facts.find(nm)[0]] = p_port(kind)
     c = facts.find("write_registers")
@@ -215,31 +215,42 @@ def run(ctx, res):
             return
     routed = dispatch(facts, res)
     res.inventory["routed_addresses"] = {k: (["0x%x" % a for a in v] if v is not None else "more than 64 / undecided") for k, v in routed.items()}
-    for op in ("ddr", "dr", "pin"):
+    # ops "write:ddr" / "write:dr" are the COMPOSED rule: Bus::write itself (whatever it calls - handlers by address, by port number,
+    # inlined logic) is analysed for an address of the DDR / DR window and a value that differs from the stored one, against the same
+    # per-bit reference; it does not depend on the handlers' names and subsumes the routing rule
+    k_write = facts.body("bus::Bus::write")["key"]
+    for op in ("ddr", "dr", "pin", "write:ddr", "write:dr"):
+        bop = op.split(":")[-1]
+        composed = op.startswith("write:")
         bm, ip = setup(facts)
+        if composed:
+            c_ = facts.find("write_registers")
+            if len(c_) == 1:
+                ip.primitives[c_[0]] = lambda ip_, st, fr, t, args: UNIT
         _IP[0] = ip
         Mx = bv.M
         mem = {}
         busref = bm.fresh(mem)
         val = bv.data_bv("val", 8)
-        if op == "pin":
+        if bop == "pin":
             port = bv.top_bv("port", 8, 20)
             args = [busref, Int(port), Int(val)]
             valid = Mx.AND(bv.ule(bv.const(1, 8), port), bv.ule(port, bv.const(NPORT, 8)))
             p0 = bv.sub(port, bv.const(1, 8))
         else:
-            base = DDR_BASE if op == "ddr" else DR_BASE
+            base = DDR_BASE if bop == "ddr" else DR_BASE
             addr = bv.top_bv("addr", 32, 20)
             args = [busref, Int(addr), Int(val)]
             valid = Mx.AND(bv.ule(bv.const(base, 32), addr), bv.ule(addr, bv.const(base + NPORT - 1, 32)))
             p0 = bv.sub(addr, bv.const(base, 32))[:8]
             # the calling contexts Bus::write really produces (rule 0): panics are judged on them, the per-bit reference on the 11 ports
             ctx_ = valid
-            for a_ in (routed.get(op) or ()):
+            for a_ in (routed.get(bop) or ()):
                 ctx_ = Mx.OR(ctx_, bv.eq(addr, bv.const(a_, 32)))
-        outs = ip.run_all(names[op][0], args, mem)
+        entry_ = k_write if composed else names[bop][0]
+        outs = ip.run_all(entry_, args, mem)
         if ip.unknown_callees:
-            res.errors.append("unmodelled callees in %s: %r" % (names[op][0], ip.unknown_callees))
+            res.errors.append("unmodelled callees in %s: %r" % (entry_, ip.unknown_callees))
         # old state of the port (initial contents at the port's indices)
         i_ddr = bv.zext(p0, 8)                                   # io_registrs1[p]
         i_dr = bv.add(bv.zext(p0, 8), bv.const(DR_BASE - IO2_START, 8))   # io_registrs2[0xb0 + p]
@@ -255,11 +266,17 @@ def run(ctx, res):
         for o in outs:
             st = o.state
             care = Mx.AND(st.pc, valid)
+            if composed:
+                # the stored value differs from the written one (otherwise Bus::write may leave everything as it is)
+                prev_ = DDR if bop == "ddr" else DR
+                care = Mx.AND(care, Mx.NOT(bv.eq(tuple(prev_), tuple(val))))
+                if care == 0 or o.kind == "panic" or not (isinstance(o.value, Enum) and o.value.variant == models.OK):
+                    continue      # other addresses, panics and rejected accesses are C09's / C15's
             if any(t in st.tags for t in ("opaque-switch", "opaque-assert", "unknown-callee")):
                 res.errors.append("imprecise trace in %s: %r" % (op, st.tags))
                 continue     # an imprecisely followed trace decides nothing
             if o.kind == "panic":
-                carep = Mx.AND(st.pc, ctx_) if op != "pin" else st.pc      # write_port is handed any port number the control channel names
+                carep = Mx.AND(st.pc, ctx_) if bop != "pin" else st.pc      # write_port is handed any port number the control channel names
                 if carep != 0:
                     res.ob(False)
                     res.finding("%s|panic|%s" % (op, o.info.get("kind")), "the port handler can panic (%s, line %s)%s" % (o.info.get("kind"), o.info.get("line"),
@@ -270,7 +287,7 @@ def run(ctx, res):
             wp = bm.store_of(st, "io_port_in").writes
             others = sum(len(bm.store_of(st, n).writes) for n in bm.stores if n not in ("io_registrs1", "io_registrs2", "io_port_in"))
             msgs = [e for e in st.eff if e[0] == "msg"]
-            if op == "pin":
+            if bop == "pin":
                 inv = Mx.AND(st.pc, Mx.NOT(valid))
                 if inv != 0 and care == 0:
                     okk = not (w1 or w2 or wp or msgs or others)
@@ -286,14 +303,14 @@ def run(ctx, res):
             if others:
                 res.finding("%s|foreign-store" % op, "the port handler writes a store other than the port registers / pin levels", witness(care))
             # expected new state
-            nDDR = val if op == "ddr" else DDR
-            if op == "ddr":
+            nDDR = val if bop == "ddr" else DDR
+            if bop == "ddr":
                 nDR = bv.OR(bv.AND(DR, val), bv.AND(bv.NOT(val), PIN))
-            elif op == "dr":
+            elif bop == "dr":
                 nDR = bv.OR(bv.AND(val, DDR), bv.AND(bv.NOT(DDR), PIN))
             else:
                 nDR = bv.OR(bv.AND(DR, DDR), bv.AND(bv.NOT(DDR), val))
-            nPIN = val if op == "pin" else PIN
+            nPIN = val if bop == "pin" else PIN
             # final contents of this port's three cells
             fin1 = ip.arr_read(bm.store_of(st, "io_registrs1"), tuple(i_ddr[:8]))
             fin2 = ip.arr_read(bm.store_of(st, "io_registrs2"), tuple(i_dr[:8]))
@@ -302,7 +319,7 @@ def run(ctx, res):
                 d = differs(got, exp, care)
                 res.ob(d == 0)
                 if d != 0:
-                    res.finding("%s|%s" % (op, what), "after %s the stored %s is not the reference merge of latch, direction and pins" % ({"ddr": "a DDR write", "dr": "a DR write", "pin": "an external change"}[op], what), witness(d))
+                    res.finding("%s|%s" % (op, what), "after %s the stored %s is not the reference merge of latch, direction and pins" % ({"ddr": "a DDR write", "dr": "a DR write", "pin": "an external change"}[bop], what), witness(d))
             # isolation: every write goes to this port's cell
             for sname, ws, idx in (("io_registrs1", w1, i_ddr[:8]), ("io_registrs2", w2, i_dr[:8]), ("io_port_in", wp, i_pin[:4])):
                 for widx, wval in ws:
